@@ -173,5 +173,40 @@ item(F + " :: impl Fr :: fn from_raw", ret="r", stmts=1,
 item(F + " :: impl Fr :: fn one", ret="r", stmts=1, ensures=["reduced(r)", "val4(r.0) == r256() % q()"],
      hints={"0": ["proof { lemma_consts(); }"]})
 
+# ---- square: 6 cross macs, 7 shift lets, 8 diagonal mac/adc, tail  (22 statements)
+h = {}
+h["0"] = ["proof { lemma_q_bounds(); lemma_val4_bound(self.0); }"]
+h["1"] = ["let ghost s1 = r1; let ghost c0 = carry as int;"]
+h["2"] = ["let ghost s2 = r2; let ghost c1 = carry as int;"]
+h["3"] = ["let ghost s3 = r3 as int; let ghost s4 = r4 as int;"]
+h["4"] = ["let ghost t3 = r3; let ghost c3 = carry as int;"]
+h["5"] = ["let ghost t4 = r4; let ghost s5 = r5 as int;"]
+h["6"] = ["let ghost t5 = r5; let ghost s6 = r6;",
+          "proof { lemma_sq_cross(self.0[0], self.0[1], self.0[2], self.0[3], s1 as int, c0, s2 as int, c1, s3, s4, t3 as int, c3, t4 as int, s5, t5 as int, s6 as int); }"]
+h["13"] = ["let ghost (n1, n2, n3, n4, n5, n6, n7) = (r1, r2, r3, r4, r5, r6, r7);",
+           "proof { lemma_sq_double(s1, s2, t3, t4, t5, s6, n1, n2, n3, n4, n5, n6, n7); }"]
+names = ["z0", "z1", "z2", "z3", "z4", "z5", "z6", "z7"]
+for i in range(8):
+    if i < 7:
+        h.setdefault(str(14 + i), []).append("let ghost %s = r%d as int; let ghost d%d = carry as int;" % (names[i], i, i))
+h["21"] = ["let ghost z7 = r7 as int;",
+           "let ghost d7 = (n7 as int + d6 - z7) / %s;" % P,
+           "proof {",
+           "    assert(z7 + %s * d7 == n7 as int + d6);" % P,
+           "    lemma_sq_diag(self.0[0], self.0[1], self.0[2], self.0[3], n1 as int, n2 as int, n3 as int, n4 as int, n5 as int, n6 as int, n7 as int,",
+           "        z0, d0, z1, d1, z2, d2, z3, d3, z4, d4, z5, d5, z6, d6, z7, d7);",
+           "    lemma_sq_expand(self.0[0], self.0[1], self.0[2], self.0[3]);",
+           "    let v = val4(self.0) * val4(self.0);",
+           "    assert(self.0 =~= [self.0[0], self.0[1], self.0[2], self.0[3]]);",
+           "    assert(ival8(z0, z1, z2, z3, z4, z5, z6, z7) + r256() * r256() * d7 == v);",
+           "    assert(0 <= v < r256() * r256()) by (nonlinear_arith) requires v == val4(self.0) * val4(self.0), 0 <= val4(self.0) < r256();",
+           "    assert(d7 >= 0);",
+           "    lemma_sq_no_carry(ival8(z0, z1, z2, z3, z4, z5, z6, z7), v, d7);",
+           "    assert(val8(r0, r1, r2, r3, r4, r5, r6, r7) == v);",
+           "    lemma_prod_bound(val4(self.0), val4(self.0));",
+           "}"]
+item(F + " :: impl Fr :: fn square", ret="r", stmts=22, requires=["reduced(*self)"],
+     ensures=["reduced(r)", "congruent(val4(r.0) * r256(), val4(self.0) * val4(self.0), q())"], hints=h)
+
 open(__file__.rsplit("/", 1)[0] + "/contracts.txt", "w").write("\n".join(out) + "\n")
 print("contracts.txt written:", sum(1 for l in out if l.startswith("###")), "items")
